@@ -171,7 +171,7 @@ func execStop(input string) Result {
 }
 
 var stopMoments = []string{"", "lq.inserted", "pre.in", "pre.done", "arch.in", "arch.fetch", "arch.written", "arch.done", "post.in", "post.done",
-	"fin.in", "fin.feedback", "fin.finished", "fin.notified", "lq.deleted", "paused", "paused", "paused", "diskpaused", "stalled"}
+	"fin.in", "fin.feedback", "fin.finished", "fin.notified", "lq.deleted", "paused", "paused", "paused", "diskpaused", "stalled", "fin.produce", "fin.produce"}
 
 func genStop(r *Rng, i int, tier string) string {
 	w := []int{1, 2, 2, 3, 4}[r.Intn(5)]
@@ -228,6 +228,20 @@ func genStop(r *Rng, i int, tier string) string {
 			s += " proxy=1"
 		}
 		s += fmt.Sprintf(" mode=stall httpto=%d stop=arch.fetch:%d", 2+r.Intn(2), 1+r.Intn(5))
+	case "fin.produce":
+		// in the middle of a burst of outlinks travelling postprocessor -> finisher -> queue (link-rich pages, few workers)
+		if !strings.Contains(s, "maxhops=1") {
+			s += " maxhops=1"
+		}
+		if f := strings.Fields(s); len(f) > 0 && strings.HasPrefix(f[0], "site=") {
+			if n, err := strconv.ParseUint(strings.TrimPrefix(f[0], "site="), 10, 64); err == nil && n%2 == 1 {
+				s = strings.Replace(s, f[0], fmt.Sprintf("site=%d", n+1), 1)
+			}
+		}
+		// a slow hand-over to the queue (slow disk): the finisher still holds outlinks when the stop sequence reaches the
+		// queue source - whichever of finisher and source is stopped first, nobody may be left blocked on the other
+		s = strings.Replace(s, fmt.Sprintf(" w=%d ", w), " w=1 ", 1)
+		s += fmt.Sprintf(" stop=fin.produce:%d slow=fin.produce:%d", 1+r.Intn(2), []int{80, 1300, 1300}[r.Intn(3)])
 	default:
 		s += fmt.Sprintf(" stop=%s:%d", m, 1+r.Intn(4))
 	}
